@@ -104,6 +104,21 @@ theorem W_code {box : Bound α} (hb : BoxOK box) (isOpen : Bool) (p : Pt α) :
   · exact W_bitCode hb p
   · exact W_bitCodeOpen hb p
 
+theorem bitCount_code_le (box : Bound α) (isOpen : Bool) (p : Pt α) : bitCount (code box isOpen p) ≤ 2 := by
+  cases isOpen
+  · exact bitCount_bitCode_le box p
+  · exact bitCount_bitCodeOpen_le box p
+
+/-- the outer step of the model (`lineStep`, inner loop with the rounding guards) is the step over the
+    loop without the guards, when the carried code is the code of `a` -/
+theorem lineStep_eq_U {box : Bound α} (hb : BoxOK box) (isOpen : Bool) {st : LineSt α} {a : Pt α} (b : Pt α)
+    (last : Bool) (hcode : st.codeA = code box isOpen a) :
+    lineStep box isOpen st a b last = lineStepU box isOpen st a b last := by
+  refine lineStep_eq_lineStepU last ?_
+  rw [hcode]
+  exact segLoop_eq_segLoopU hb isOpen (W_code hb isOpen a) (W_code hb isOpen b) (bitCount_code_le box isOpen a)
+    (bitCount_code_le box isOpen b) (fun ho => by subst ho; exact ⟨rfl, rfl⟩) 8
+
 /-- a piece segment `s` is a clipped part of some segment of `path` -/
 def SegOK (box : Bound α) (isOpen : Bool) (path : List (Pt α)) (s : Pt α × Pt α) : Prop :=
   InBox box s.1 ∧ InBox box s.2 ∧ (∃ u ∈ segsOf path, OnSeg u.1 u.2 s.1 ∧ OnSeg u.1 u.2 s.2) ∧
@@ -205,8 +220,8 @@ def Repr (st : LineSt α) (a : Pt α) (V : List (List (Pt α))) : Prop :=
      ∃ cur, st.out = done ++ [cur] ∧ st.codeA = 0 ∧ V = done ++ [cur ++ [a]])
 
 theorem lineStep_eq (box : Bound α) (isOpen : Bool) (st : LineSt α) (a b : Pt α) (last : Bool) :
-    lineStep box isOpen st a b last =
-      match segLoop box 8 a b st.codeA (code box isOpen b) with
+    lineStepU box isOpen st a b last =
+      match segLoopU box 8 a b st.codeA (code box isOpen b) with
       | .accept a' b' codeB' =>
         if codeB' ≠ code box isOpen b then
           { out := push (push st.out st.line a') st.line b',
@@ -219,14 +234,14 @@ theorem lineStep_eq (box : Bound α) (isOpen : Bool) (st : LineSt α) (a b : Pt 
       | .stuck => { st with codeA := code box isOpen b, stuck := true } := rfl
 
 theorem lineStep_reject {box : Bound α} {isOpen : Bool} {st : LineSt α} {a b : Pt α} (last : Bool)
-    (hr : segLoop box 8 a b st.codeA (code box isOpen b) = .reject) :
-    lineStep box isOpen st a b last = ⟨st.out, st.line, code box isOpen b, st.stuck⟩ := by
+    (hr : segLoopU box 8 a b st.codeA (code box isOpen b) = .reject) :
+    lineStepU box isOpen st a b last = ⟨st.out, st.line, code box isOpen b, st.stuck⟩ := by
   rw [lineStep_eq, hr]
 
 theorem lineStep_accept_out {box : Bound α} {isOpen : Bool} {st : LineSt α} {a b a' b' : Pt α}
-    (last : Bool) (hr : segLoop box 8 a b st.codeA (code box isOpen b) = .accept a' b' 0)
+    (last : Bool) (hr : segLoopU box 8 a b st.codeA (code box isOpen b) = .accept a' b' 0)
     (hE : code box isOpen b ≠ 0) :
-    lineStep box isOpen st a b last =
+    lineStepU box isOpen st a b last =
       ⟨push (push st.out st.line a') st.line b', if last then st.line else st.line + 1,
         code box isOpen b, st.stuck⟩ := by
   have hE' : (0 : Nat) ≠ code box isOpen b := fun h => hE h.symm
@@ -234,17 +249,17 @@ theorem lineStep_accept_out {box : Bound α} {isOpen : Bool} {st : LineSt α} {a
   simp only [hE', ne_eq, not_false_eq_true, if_true]
 
 theorem lineStep_accept_in_last {box : Bound α} {isOpen : Bool} {st : LineSt α} {a b a' b' : Pt α}
-    (hr : segLoop box 8 a b st.codeA (code box isOpen b) = .accept a' b' 0)
+    (hr : segLoopU box 8 a b st.codeA (code box isOpen b) = .accept a' b' 0)
     (hE : code box isOpen b = 0) :
-    lineStep box isOpen st a b true =
+    lineStepU box isOpen st a b true =
       ⟨push (push st.out st.line a') st.line b', st.line, code box isOpen b, st.stuck⟩ := by
   rw [lineStep_eq, hr]
   simp only [hE, ne_eq, not_true_eq_false, if_false, if_true]
 
 theorem lineStep_accept_in {box : Bound α} {isOpen : Bool} {st : LineSt α} {a b a' b' : Pt α}
-    (hr : segLoop box 8 a b st.codeA (code box isOpen b) = .accept a' b' 0)
+    (hr : segLoopU box 8 a b st.codeA (code box isOpen b) = .accept a' b' 0)
     (hE : code box isOpen b = 0) :
-    lineStep box isOpen st a b false =
+    lineStepU box isOpen st a b false =
       ⟨push st.out st.line a', st.line, code box isOpen b, st.stuck⟩ := by
   rw [lineStep_eq, hr]
   simp only [hE, ne_eq, not_true_eq_false, if_false, Bool.false_eq_true]
@@ -258,11 +273,12 @@ theorem lineStep_spec {box : Bound α} (hb : BoxOK box) (isOpen : Bool) (pre : L
     ∃ V', Good box isOpen (pre ++ [a, b]) V' ∧
       (last = true → (lineStep box isOpen st a b last).out = V') ∧
       (last = false → Repr (lineStep box isOpen st a b last) b V') := by
+  rw [lineStep_eq_U hb isOpen b last hcode]
   have hWA : W box st.codeA a := hcode ▸ W_code hb isOpen a
   have hWB : W box (code box isOpen b) b := W_code hb isOpen b
   have key := segLoop_spec hb (isOpen = false) 8 a b st.codeA (code box isOpen b) hWA hWB
     (by intro h; subst h; exact ⟨hcode, rfl⟩) (mu_lt_eight hWA.1 hWB.1)
-  generalize hr : segLoop box 8 a b st.codeA (code box isOpen b) = r at key
+  generalize hr : segLoopU box 8 a b st.codeA (code box isOpen b) = r at key
   cases r with
   | stuck => exact key.elim
   | reject =>
@@ -394,15 +410,19 @@ theorem bitCode_of_inBox {box : Bound α} {p : Pt α} (h : InBox box p) : bitCod
   rw [if_neg (not_lt.2 h1), if_neg (not_lt.2 h2), if_neg (not_lt.2 h3), if_neg (not_lt.2 h4)]
   rfl
 
-theorem segLoop_zero (box : Bound α) (a b : Pt α) : segLoop box 8 a b 0 0 = .accept a b 0 := by
-  rw [segLoop]; simp
+theorem segLoop_zero (box : Bound α) (a b : Pt α) : segLoopU box 8 a b 0 0 = .accept a b 0 := by
+  rw [segLoopU]; simp
 
 theorem lineStep_inside (box : Bound α) (out : List (List (Pt α))) (a b : Pt α) (hb : InBox box b)
     (last : Bool) :
     lineStep box false ⟨out, 0, 0, false⟩ a b last =
       ⟨if last then push (push out 0 a) 0 b else push out 0 a, 0, 0, false⟩ := by
   have hE : code box false b = 0 := bitCode_of_inBox hb
-  have hr : segLoop box 8 a b (LineSt.codeA ⟨out, 0, 0, false⟩) (code box false b) = .accept a b 0 := by
+  have hbr : segLoop box false 8 a b (LineSt.codeA ⟨out, 0, 0, false⟩) (code box false b) 0 0 =
+      segLoopU box 8 a b (LineSt.codeA ⟨out, 0, 0, false⟩) (code box false b) := by
+    rw [hE]; exact segLoop_eq_segLoopU_decided box false 7 a b (cA := 0) (cB := 0) 0 0 (Or.inl rfl)
+  rw [lineStep_eq_lineStepU last hbr]
+  have hr : segLoopU box 8 a b (LineSt.codeA ⟨out, 0, 0, false⟩) (code box false b) = .accept a b 0 := by
     rw [hE]; exact segLoop_zero box a b
   cases last
   · rw [lineStep_accept_in hr hE, hE]; rfl
